@@ -15,7 +15,9 @@ import time
 ROOT = os.path.dirname(os.path.dirname(os.path.abspath(__file__)))
 
 
-def build_witness(u, plain: str, work: str):
+def build_witness(u, plain: str, work: str, items=None):
+    """`witness.rs` either includes the whole native rendering (`include!("plain.rs")`) or names single extracted items with
+    lines `//@item <item path>`, which are replaced by that item's native text (real body, rules applied, no contract)"""
     w = u.get('witness')
     if not w:
         return None, 'unit has no witness harness'
@@ -23,7 +25,18 @@ def build_witness(u, plain: str, work: str):
     os.makedirs(d, exist_ok=True)
     with open(os.path.join(d, 'plain.rs'), 'w') as f:
         f.write(plain)
-    shutil.copy(os.path.join(u['dir'], w['harness']), os.path.join(d, 'witness.rs'))
+    src = open(os.path.join(u['dir'], w['harness'])).read()
+    out = []
+    for ln in src.split('\n'):
+        if ln.strip().startswith('//@item '):
+            key = ln.strip()[len('//@item '):].strip()
+            if not items or key not in items:
+                return None, 'witness harness names item `%s` which was not extracted' % key
+            out.append(items[key])
+        else:
+            out.append(ln)
+    with open(os.path.join(d, 'witness.rs'), 'w') as f:
+        f.write('\n'.join(out))
     p = subprocess.run(['rustc', '--edition', '2021', '-O', '-A', 'warnings', '-o', 'witness', 'witness.rs'], cwd=d,
                        capture_output=True, text=True, timeout=600)
     if p.returncode != 0:
@@ -31,8 +44,8 @@ def build_witness(u, plain: str, work: str):
     return os.path.join(d, 'witness'), ''
 
 
-def search_witness(u, plain, work, tier):
-    exe, err = build_witness(u, plain, work)
+def search_witness(u, plain, work, tier, items=None):
+    exe, err = build_witness(u, plain, work, items)
     if exe is None:
         return None, err
     w = u['witness']
@@ -51,7 +64,7 @@ def write_replay(prop, u, base, f, work, tier, donor=None):
     os.makedirs(os.path.join(ROOT, 'replays'), exist_ok=True)
     witness, note = None, ''
     if u['backend'] == 'verus':
-        witness, note = search_witness(u, base['asm'].plain, work, tier)
+        witness, note = search_witness(u, base['asm'].plain, work, tier, getattr(base['asm'], 'native_items', None))
     elif u['backend'] in ('kani', 'native'):
         witness, note = getattr(f, 'witness', None), getattr(f, 'witness_note', '')
     replay_unit = u['name']
@@ -93,7 +106,7 @@ def do_replay(prop, path, units):
             from .unit import parse_sidecar, assemble
             sc = parse_sidecar(os.path.join(u['dir'], 'unit.vx'))
             asm = assemble(sc)
-            exe, err = build_witness(u, asm.plain, work)
+            exe, err = build_witness(u, asm.plain, work, asm.native_items)
             if exe is None:
                 print('UNDECIDED replay: ' + err)
                 return 2
